@@ -111,6 +111,33 @@ PROPS = {
             {"run": "^TestC16$", "quick": 800, "thorough": 6000},
         ],
     },
+    "C18": {
+        "level": "exploration",
+        "exhaustive_thorough": False,
+        "assumptions": [
+            "time.Parse(time.RFC3339, s) defines the accepted domain and the expected instant/offset; on strings it rejects only 'no panic' is required",
+            "all calendar dates 0000-01-01..9999-12-31 are enumerated in the thorough tier (strided in quick); everything else is sampled",
+        ],
+        "units": [
+            regress("C18"),
+            {"run": "^TestC18Dates$", "quick": 1, "thorough": 1, "rapid": False},
+            {"run": "^TestC18$", "quick": 50000, "thorough": 600000},
+        ],
+    },
+    "C19": {
+        "level": "exploration",
+        "exhaustive_thorough": False,
+        "assumptions": [
+            "expected instants are computed with time.Unix arithmetic from the specification's definitions",
+            "write direction: floor or truncation to the unit are both accepted; times within one millisecond of the int64-nanosecond limits are left out",
+            "the date type's 2^32 day counts are enumerated completely only in the thorough tier",
+        ],
+        "units": [
+            regress("C19"),
+            {"run": "^TestC19Dates$", "quick": 1, "thorough": 1, "rapid": False},
+            {"run": "^TestC19$", "quick": 30000, "thorough": 300000},
+        ],
+    },
     "C13": {
         "level": "exploration",
         "assumptions": [
